@@ -95,7 +95,7 @@ func (n *node) eval(zeroDiv *bool) val {
 	}
 }
 
-func atomI(i int64) *node   { return &node{lit: fmt.Sprint(i), i: i} }
+func atomI(i int64) *node             { return &node{lit: fmt.Sprint(i), i: i} }
 func atomF(s string, f float64) *node { return &node{lit: s, isF: true, f: f} }
 
 var ops = []string{"+", "-", "*", "/", "%", "**"}
